@@ -1,5 +1,130 @@
 /- Helper lemmas for C14 (JSON Pointer): `repl2`, `splitOn`, `unquote`, UTF-8 round trip. -/
 import JS.Pointer
 import JS.Spec.Pointer
+import Mathlib.Tactic.IntervalCases
 namespace JS
+namespace PointerProofs
+
+/-! ### (c) `unescapeToken` inverts `escapeToken` -/
+
+theorem repl2_cons_ne (a b r x : Char) (rest : Str) (h : x ≠ a) :
+    repl2 a b r (x :: rest) = x :: repl2 a b r rest := by
+  cases rest with
+  | nil => simp [repl2]
+  | cons y rest => simp [repl2, h]
+
+theorem repl2_hit (a b r : Char) (rest : Str) :
+    repl2 a b r (a :: b :: rest) = r :: repl2 a b r rest := by
+  simp [repl2]
+
+theorem repl2_miss (a b r y : Char) (rest : Str) (h : y ≠ b) :
+    repl2 a b r (a :: y :: rest) = a :: repl2 a b r (y :: rest) := by
+  simp [repl2, h]
+
+/-- the intermediate string: only `~` escaped -/
+def esc0 (s : Str) : Str := s.flatMap fun c => if c = '~' then ['~', '0'] else [c]
+
+theorem repl2_escapeToken (k : Str) : repl2 '~' '1' '/' (Spec.escapeToken k) = esc0 k := by
+  induction k with
+  | nil => simp [Spec.escapeToken, esc0, repl2]
+  | cons c k ih =>
+    have hc : Spec.escapeToken (c :: k) =
+        (if c = '~' then ['~', '0'] else if c = '/' then ['~', '1'] else [c]) ++ Spec.escapeToken k := by
+      simp [Spec.escapeToken]
+    have hc' : esc0 (c :: k) = (if c = '~' then ['~', '0'] else [c]) ++ esc0 k := by
+      simp [esc0]
+    rw [hc, hc']
+    by_cases h1 : c = '~'
+    · subst h1
+      simp only [if_true, List.cons_append, List.nil_append]
+      rw [repl2_miss _ _ _ _ _ (by decide), repl2_cons_ne _ _ _ _ _ (by decide), ih]
+    · by_cases h2 : c = '/'
+      · subst h2
+        have e1 : (if '/' = '~' then ['~', '0'] else if '/' = '/' then ['~', '1'] else ['/']) = ['~', '1'] := by
+          decide
+        have e2 : (if '/' = '~' then ['~', '0'] else ['/']) = ['/'] := by decide
+        rw [e1, e2]
+        simp only [List.cons_append, List.nil_append]
+        rw [repl2_hit, ih]
+      · simp only [if_neg h1, if_neg h2, List.cons_append, List.nil_append]
+        rw [repl2_cons_ne _ _ _ _ _ h1, ih]
+
+theorem repl2_esc0 (k : Str) : repl2 '~' '0' '~' (esc0 k) = k := by
+  induction k with
+  | nil => simp [esc0, repl2]
+  | cons c k ih =>
+    have hc' : esc0 (c :: k) = (if c = '~' then ['~', '0'] else [c]) ++ esc0 k := by
+      simp [esc0]
+    rw [hc']
+    by_cases h1 : c = '~'
+    · subst h1
+      simp only [if_true, List.cons_append, List.nil_append]
+      rw [repl2_hit, ih]
+    · simp only [if_neg h1, List.cons_append, List.nil_append]
+      rw [repl2_cons_ne _ _ _ _ _ h1, ih]
+
+theorem unescape_escape (k : Str) : unescapeToken (Spec.escapeToken k) = k := by
+  unfold unescapeToken
+  rw [repl2_escapeToken, repl2_esc0]
+
+/-! ### (b) `splitOn` inverts the join -/
+
+theorem slash_not_mem_escapeToken (k : Str) : '/' ∉ Spec.escapeToken k := by
+  unfold Spec.escapeToken
+  simp only [List.mem_flatMap, not_exists, not_and]
+  intro c _
+  by_cases h1 : c = '~'
+  · subst h1; simp
+  · by_cases h2 : c = '/'
+    · subst h2; simp
+    · simp only [if_neg h1, if_neg h2, List.mem_singleton]
+      exact fun h => h2 h.symm
+
+theorem splitOn_no_sep (c : Char) (t : Str) (h : c ∉ t) : splitOn c t = [t] := by
+  induction t with
+  | nil => simp [splitOn]
+  | cons x t ih =>
+    have hx : x ≠ c := fun e => h (by simp [e])
+    have ht : c ∉ t := fun e => h (by simp [e])
+    simp [splitOn, hx, ih ht]
+
+theorem splitOn_append_sep (c : Char) (t rest : Str) (h : c ∉ t) :
+    splitOn c (t ++ c :: rest) = t :: splitOn c rest := by
+  induction t with
+  | nil => simp [splitOn]
+  | cons x t ih =>
+    have hx : x ≠ c := fun e => h (by simp [e])
+    have ht : c ∉ t := fun e => h (by simp [e])
+    simp [splitOn, hx, ih ht]
+
+theorem pointerString_cons (t : Str) (ts : List Str) :
+    Spec.pointerString (t :: ts) = '/' :: (Spec.escapeToken t ++ Spec.pointerString ts) := by
+  simp [Spec.pointerString]
+
+theorem splitOn_pointerString (t : Str) (ts : List Str) :
+    splitOn '/' (Spec.escapeToken t ++ Spec.pointerString ts)
+      = Spec.escapeToken t :: ts.map Spec.escapeToken := by
+  induction ts generalizing t with
+  | nil =>
+    simp only [Spec.pointerString, List.flatMap_nil, List.append_nil, List.map_nil]
+    exact splitOn_no_sep _ _ (slash_not_mem_escapeToken t)
+  | cons u ts ih =>
+    rw [pointerString_cons, splitOn_append_sep _ _ _ (slash_not_mem_escapeToken t), ih]
+    rfl
+
+theorem fragmentTokens_of_unquote (fragment : Str) (toks : List Str)
+    (h : unquote fragment = Spec.pointerString toks) : fragmentTokens fragment = toks := by
+  unfold fragmentTokens
+  rw [h]
+  cases toks with
+  | nil => simp [Spec.pointerString]
+  | cons t ts =>
+    rw [pointerString_cons]
+    simp only [splitOn_pointerString, List.map_cons, List.map_map]
+    rw [unescape_escape]
+    congr 1
+    have : (unescapeToken ∘ Spec.escapeToken) = id := funext unescape_escape
+    rw [this, List.map_id]
+
+end PointerProofs
 end JS
